@@ -3,7 +3,16 @@ import lib
 from lib import line, Id, Case
 from props.polymod_common import *
 
-PROVED = ['lift_factorization_e1: e = 1 returns the input factors']
+PROVED = ['[P] hensel_step_spec (Cohen 3.5.5; any p > 1 dividing q, a monic): c = a1 b1 mod q p, a1 = a and b1 = b mod q, a1 monic of the degree of a, coefficients in [0, q p)',
+          '[P] hensel_step_total: no panic / fuel exhaustion under the same preconditions',
+          '[P] coprime_witness_spec (p prime, leading coefficients not divisible by p): whenever poly_coprime_witness returns, a u + b v = 1 mod p, u and v reduced '
+          '(with the Bezout identity of num\'s extended_gcd and of poly_ext_gcd)',
+          '[P] lift_factorization_spec (p prime, e >= 1, p not dividing lc(c), factors monic with c = lc * prod f_i mod p): if the routine returns, g_i monic, '
+          'deg g_i = deg f_i, g_i = f_i mod p, coefficients in [0, p^e) (e >= 2), lc * prod g_i = c mod p^e and prod g_i = c * lc^-1 mod p^e; e = 1 returns the input',
+          '[P] lift_factorization_total: the lift returns (no panic, no fuel exhaustion) when the monic factors are pairwise coprime mod p; '
+          'with fuel sufficiency of num\'s extended_gcd (potential argument) and of poly_ext_gcd',
+          '[P] coprime_witness_total: the Bezout witness exists for coprime arguments',
+          '[P] lift_factorization_e1']
 NOT_PROVED = []
 RULE = ('lift_factorization on planted inputs: p in {2,3,5,7,13,101,2^61-1}, e in 1..12, 1..8 distinct monic irreducible factors mod p '
         '(total degree <= 10), c = lc * prod + p * (random), lc prime to p (also huge / negative), coefficients of c disguised by multiples '
@@ -12,8 +21,8 @@ RULE = ('lift_factorization on planted inputs: p in {2,3,5,7,13,101,2^61-1}, e i
         'a separate stream outside the preconditions (duplicate factors, p | lc, wrong product). Non-trivial = at least 2 factors and e >= 2.')
 CLAIM = dict(
     technique='Coq proof about the Gallina model of src/poly_mod/hensel.rs and prim.rs (ext gcd, coprime witness) + extracted-model-vs-implementation correspondence + independent oracle (the five clauses recomputed)',
-    text='Theorems in coq/Props/C11.v; the model is tied to /repo by running the extracted model and impl_svc on the same inputs.',
-    note='see PROVED / NOT_PROVED in the evidence file',
+    text='Proved for all inputs (no bound on p, e, degrees, number of factors): one Hensel step, the Bezout witness, and the whole multi-factor lift by induction on the factor list and on e (partial correctness + termination = total correctness). The model is tied to /repo by running the extracted model and impl_svc on the same inputs.',
+    note='Total correctness under the stated preconditions (p prime, p not dividing lc(c), monic pairwise coprime factors with c = lc * prod mod p). p | lc(c) (outside the precondition) makes the implementation recurse without bound (see the comment in the generator).',
     ref='DESIGN.md section 4, C11')
 TIMEOUT = 1200
 PS = [2, 3, 5, 7, 13, 101, 2 ** 61 - 1]
@@ -90,7 +99,7 @@ def cases(rng, tier):
         p = PS[i % len(PS)]
         e = rng.choice([1, 2, 2, 3, 3, 4, 5, 6, 8, 10, 12])
         c, fs = planted(rng, p, th)
-        out.append(Case('pm_lift_factorization', line('pm_lift_factorization', p, e, c, fs), oracle=o_lift(p, e, c, fs),
+        out.append(Case('pm_lift_factorization', line('pm_lift_factorization', p, e, c, fs), oracle=o_lift(p, e, c, fs), always_oracle=True,
                         nontrivial=(len(fs) >= 2 and e >= 2), tag='lift-planted-%dfac%s' % (min(len(fs), 4), '+' if len(fs) >= 4 else '')))
     # factors from the implementation's own factorize_mod_p of a random c that is squarefree mod p
     pre = []
@@ -106,7 +115,7 @@ def cases(rng, tier):
         fs = [g for g, _ in v]
         rng.shuffle(fs)
         e = rng.choice([2, 3, 4, 6, 9, 12])
-        out.append(Case('pm_lift_factorization', line('pm_lift_factorization', p, e, c, fs), oracle=o_lift(p, e, c, fs),
+        out.append(Case('pm_lift_factorization', line('pm_lift_factorization', p, e, c, fs), oracle=o_lift(p, e, c, fs), always_oracle=True,
                         nontrivial=len(fs) >= 2, tag='lift-own-factorisation'))
     # degenerate shapes inside the property
     for p in PS:
